@@ -450,12 +450,19 @@ func (r *run) runStream() {
 	}
 	var queue []inFlight
 	lag := 0
-	if roundtrip {
+	if roundtrip || wire != nil {
 		lag = t.Weighted(core.Fault, 5, 2, 1, 1)
 		if lag > 0 {
 			r.fault("delivery_delayed")
 		}
 	}
+	// the wire monitor, too, sees the messages the producer returned (not
+	// copies), up to `lag` batches behind the producer
+	type wireMsg struct {
+		bar *colarspb.BatchArrowRecords
+		mt  colarspb.ArrowPayloadType
+	}
+	var wireQueue []wireMsg
 	deliver := func() bool {
 		m := queue[0]
 		queue = queue[1:]
@@ -550,7 +557,11 @@ func (r *run) runStream() {
 			samples = append(samples, map[string]any{"batch": i, "signal": b.signal, "kind": b.kind, "items": b.items, "observer_events": evs, "payloads": types})
 		}
 		if wire != nil {
-			wire.Observe(cloneBar(bar), mainType(b.signal))
+			wireQueue = append(wireQueue, wireMsg{bar, mainType(b.signal)})
+			if len(wireQueue) > lag {
+				wire.Observe(wireQueue[0].bar, wireQueue[0].mt)
+				wireQueue = wireQueue[1:]
+			}
 		}
 		if roundtrip {
 			// The transport delivers in order but may lag: the producer runs up
@@ -563,6 +574,10 @@ func (r *run) runStream() {
 				}
 			}
 		}
+	}
+	for wire != nil && len(wireQueue) > 0 {
+		wire.Observe(wireQueue[0].bar, wireQueue[0].mt)
+		wireQueue = wireQueue[1:]
 	}
 	for roundtrip && len(queue) > 0 && len(r.out.Violations) == 0 {
 		if !deliver() {
